@@ -10,6 +10,14 @@ CHECKS = {
  "C10": dict(engine="netsim", design="5/C10", category="exploration",
    text="Two plan families. codec: listener sets 0..200 of every textual address shape sent with the real send_listeners and read back with the real receive_listeners over a real unix socket pair, each returned fd checked against its address, with an fd-table audit. handover: two real workers (two threads under a baton scheduler that decides who runs) and a scripted master replaying ReturnListenSockets -> receive -> boot successor -> SoftStop/activate at seeded moments relative to client traffic; oracles: every listener returns bound to its address, every connect succeeds and every request in flight completes (C01 oracle), the old worker accepts nothing after acknowledging the stop, acknowledges exactly once and exits.",
    technique="deterministic simulation of two real worker event loops + scripted master with seeded hand-over timing; codec round-trip over generated listener sets"),
+ "C17": dict(engine="modelsim", design="5/C17", category="exploration",
+   text="Seeded and enumerated add/remove/replace histories (42 committed fixture certificates with overlapping exact/wildcard names, expiries, CN-only, case variants; names overrides; hostile fingerprints and PEM) against the real CertificateResolver under a seeded hash order; after every operation 75 probe spellings go through domain_lookup, names_for_sni, get_certificate and the rustls ResolvesServerCert path (synthesised ClientHello) and are compared with an independent reference model (exact over wildcard, longest-lived, default fallback; removed never served; no gap after replace). Every load x removal order of all 3-subsets of nine overlapping certificates is enumerated.",
+   technique="operation-history simulation against an executable reference model, seeded hash order; exhaustive order enumeration for small certificate sets",
+   note="modelsim tier: the resolver is driven through its public API in-process (no handshake against a running worker; that tier is listed as not covered in the evidence). Fixture fingerprints/names/expiry come from openssl, never from sozu."),
+ "C19": dict(engine="modelsim", design="5/C19", category="exploration",
+   text="Seeded histories over the repository's own action grammar (client/backend datagrams with unique payloads, late/stale resolutions, clock advances around idle timeouts, cap changes below the live count, cluster reconfiguration incl. affinity flips and PROXY-v2 modes, drain, abort, mass teardown) against the real sans-io UdpManager with the harness as I/O shell and virtual clock; the full Output vector of every call is compared with an independent reference model of stickiness, isolation, ordering, cap and exactly-once teardown.",
+   technique="operation-history simulation with injected virtual clock against an executable reference model (history oracle over the Output stream)",
+   note="modelsim tier: the flow core is driven directly; the socket shell lib/src/udp.rs is listed as not covered."),
  "C16": dict(engine="netsim", design="5/C16", category="exploration",
    text="Seeded deterministic simulation of the real worker under mixes of session outcomes and connection storms with max_connections 2..64: the hooks count the client sockets sozu is serving at every step (never above max_connections); after all peers left and virtual time passed every timeout, no client/backend socket remains open, QueryMetrics gauges equal their pre-traffic baseline and a fresh probe is served.",
    technique="deterministic simulation with fault injection; step-wise admission invariant from the syscall seam; baseline-vs-quiescence footprint comparison"),
@@ -45,6 +53,7 @@ m = {
            "baseline_off_cmd": "cd /repo && cargo test --workspace --no-fail-fast --offline",
            "source_commits": [], "add_only": True},
  "engines": [
+   {"name": "modelsim", "path": "/verif/sim/src/props", "serves_properties": [p for p in ids if CHECKS.get(p, {}).get("engine") == "modelsim"], "kind_free_text": "seeded operation histories against public stateful components of sozu under the same virtual clock / seeded entropy hooks, each with a small executable reference model"},
    {"name": "netsim", "path": "/verif/sim/src/netsim.rs", "serves_properties": [p for p in ids if CHECKS.get(p, {}).get("engine") == "netsim"], "kind_free_text": "one real sozu worker (Server::run) as a coroutine of a seeded discrete-event simulator behind interposed libc symbols (clock, entropy, epoll_wait, connect/bind/accept, data syscalls); scripted clients, backends and master"},
  ],
  "checks": checks,
